@@ -28,6 +28,7 @@ ASSUMPTIONS = [
 HOSTILE = ["</script>", "</SCRIPT>", "</ScRiPt ", "</script\n", "<!--", "<\\/script>", "</",
            '"', "\\", "\n", "\r\n", "]]>", "\u00e9", "\U0001F600", "<script>", "&amp;", "&", "'",
            "</scr</script>ipt>", "\\</script>", "\u2028"]
+VERSIONS = ["1.0-1", "v2.1", "01.02", "1.0.0RC1", "1!2.0+u.1", "1.0.post1", "2.0.0.0", "1.0a1"]
 FIELDS = ["name", "source.href", "source.subdir", "script.src", "script.type", "stylesheet.href",
           "stylesheet.title", "meta.name", "meta.content", "head.str", "head.script", "head.text",
           "nosource.script.src", "nosource.stylesheet.href", "head.padded"]
@@ -151,6 +152,13 @@ def check_serialisation(info, indent, viols, keytag):
         diff = [k for k in exp if got.get(k) != exp[k]]
         viols.append((f"{keytag}:roundtrip", f"recovered dependency differs in {diff}",
                       {"observed": got, "expected": exp}))
+    try:
+        orig_tags = build_dep(info).as_html_tags().get_html_string()
+        if deps[0].as_html_tags().get_html_string() != orig_tags:
+            viols.append((f"{keytag}:markup-differs", "the recovered dependency emits different markup (URLs) than the original",
+                          {"observed": deps[0].as_html_tags().get_html_string(), "expected": orig_tags}))
+    except Exception as e:
+        viols.append((f"{keytag}:as_html_tags-raises", f"{type(e).__name__}: {e}", {}))
     if not (deps[0] == dep):
         # equal as dependencies (head compared as markup above; == compares head TagLists)
         if got == exp and dep.head is None:
@@ -181,6 +189,34 @@ def fn_single(case):
     info = make_info([(field, s)])
     check_serialisation(info, indent, viols, f"field={field}")
     return (True, None, viols)
+
+
+def fn_version(case):
+    """version strings whose normalised spelling differs from what was typed"""
+    ver, indent = case
+    info = base_info()
+    viols = []
+    from packaging.version import Version
+    info["version"] = str(Version(ver))        # what str(dep.version) is defined to show
+    info_typed = dict(info, version=ver)
+    dep_typed = build_dep(info_typed)
+    # serialise the dependency built from the typed spelling; the recovered one must equal it
+    text = dep_typed.serialize_to_script_json(indent=indent).get_html_string()
+    from htmltools import HTMLTextDocument
+    r = HTMLTextDocument(text, deps_replace_pattern=PLACEHOLDER).render()
+    if len(r["dependencies"]) != 1:
+        viols.append(("version:count", "not exactly one dependency recovered", {}))
+    else:
+        rec = r["dependencies"][0]
+        if dep_fields(rec) != dep_fields(dep_typed) or not (rec == dep_typed):
+            viols.append(("version:roundtrip", f"dependency with version {ver!r} does not round-trip", {
+                "observed": dep_fields(rec), "expected": dep_fields(dep_typed)}))
+        a = rec.as_html_tags(lib_prefix="lib").get_html_string()
+        b = dep_typed.as_html_tags(lib_prefix="lib").get_html_string()
+        if a != b or rec.source_path_map() != dep_typed.source_path_map():
+            viols.append(("version:markup-differs", f"recovered dependency (version {ver!r}) emits different URLs than the original",
+                          {"observed": a, "expected": b}))
+    return (True, None, viols, 3)
 
 
 def fn_pair(case):
@@ -238,7 +274,7 @@ def fn_document(case):
     except Exception as e:
         return (True, "EXC", [("doc:raises", f"HTMLTextDocument raised {type(e).__name__}: {e}",
                                {"html": html})])
-    got = [dep_fields(d) for d in r["dependencies"]]
+    got = copy.deepcopy([dep_fields(d) for d in r["dependencies"]])
     exp = [expected_fields(i) for i in order]
     if got != exp:
         viols.append(("doc:deps", "recovered dependency list is not one per distinct "
@@ -258,10 +294,15 @@ def fn_document(case):
         viols.append(("doc:render", "render() output is not the text with only the first "
                       "placeholder replaced by listing + dependency markup",
                       {"observed": r["html"], "expected": exp_html2}))
-    # rendering twice gives the same
+    # what render() returns belongs to the caller: changing it never reaches the document
+    r["dependencies"].append(build_dep(DOC_DEPS[2]))
+    for d in r["dependencies"][:1]:
+        d.script.append({"src": "caller-added.js"})
+        d.name = d.name + "-caller"
+    r["dependencies"].reverse()
     r2 = doc.render()
-    if r2["html"] != r["html"]:
-        viols.append(("doc:render-twice", "second render() differs", {}))
+    if r2["html"] != r["html"] or [dep_fields(d) for d in r2["dependencies"]] != got:
+        viols.append(("doc:render-twice", "second render() differs after the caller changed what the first returned", {}))
     return (len(idxs) >= 2, (len(got), plain.count(PLACEHOLDER)), viols)
 
 
@@ -323,6 +364,8 @@ def plan(tier):
     out.append(dict(kind="space", name="documents", space=Alt(*docs), fn=fn_document, execs=2,
                     note=f"documents of 1..{nmax} serialised copies of {len(DOC_DEPS)} dependencies "
                          f"(repeats allowed) interleaved with {len(SURROUND)} surrounding texts"))
+    out.append(dict(kind="space", name="version-spellings", space=Prod(Const(VERSIONS), Const(INDENTS)), fn=fn_version,
+                    note="version strings whose normalised form differs from the typed one"))
     out.append(dict(kind="space", name="json-mode", space=Const(list(range(len(JSON_TREES)))),
                     fn=fn_jsonmode, execs=3, note="JSON render mode end-to-end", serial=True))
     if tier == "thorough":
